@@ -628,13 +628,142 @@ package cbor
 //@   arith bv
 //@   flag tags binary_log
 //@   ensures len(res) == n
+//@   ensures [C08] n <= old(len(content(src))) && (forall k in 0..n: res[k] == old(content(src))[k])
+//@   ensures [C08] samearray(content(src), old(content(src))) && off(content(src)) == old(off(content(src))) + n && len(content(src)) == old(len(content(src))) - n
 //@   loop 1:
 //@     invariant 0 <= i && i <= n && len(ret) == i
+//@     invariant [C08] i <= old(len(content(src))) && (forall k in 0..i: ret[k] == old(content(src))[k])
+//@     invariant [C08] samearray(content(src), old(content(src))) && off(content(src)) == old(off(content(src))) + i && len(content(src)) == old(len(content(src))) - i
+
+// C08: value-level contracts of the leaf decoders over the reader ghost
+// content(src) (the unread input). Normal return only: every malformed or
+// truncated input panics (C17).
+//@ func readByte(src) res
+//@   props C08
+//@   arith bv
+//@   flag tags binary_log
+//@   ensures old(len(content(src))) > 0 && res == old(content(src))[0] && samearray(content(src), old(content(src))) && off(content(src)) == old(off(content(src))) + 1 && len(content(src)) == old(len(content(src))) - 1
+
+// the argument of a CBOR head: the minor value itself, or the next 1/2/4/8
+// bytes big-endian (as the bits of an int64: for 8 bytes the unsigned value)
+//@ spec strhead(b byte) int = ite(b & 31 <= 23, 1, ite(b & 31 == 24, 2, ite(b & 31 == 25, 3, ite(b & 31 == 26, 5, 9))))
+//@ func decodeIntAdditionalType(src, minor) res
+//@   props C08
+//@   arith bv
+//@   flag tags binary_log
+//@   ensures minor <= 23 ==> res == int64(minor) && same(content(src), old(content(src)))
+//@   ensures minor == 24 ==> res == int64(old(content(src))[0]) && off(content(src)) == old(off(content(src))) + 1
+//@   ensures minor == 25 ==> res == int64(old(content(src))[0]) * 256 + int64(old(content(src))[1]) && off(content(src)) == old(off(content(src))) + 2
+//@   ensures minor == 26 ==> res == ((int64(old(content(src))[0]) * 256 + int64(old(content(src))[1])) * 256 + int64(old(content(src))[2])) * 256 + int64(old(content(src))[3]) && off(content(src)) == old(off(content(src))) + 4
+//@   ensures minor == 27 ==> res == ((((((int64(old(content(src))[0]) * 256 + int64(old(content(src))[1])) * 256 + int64(old(content(src))[2])) * 256 + int64(old(content(src))[3])) * 256 + int64(old(content(src))[4])) * 256 + int64(old(content(src))[5])) * 256 + int64(old(content(src))[6])) * 256 + int64(old(content(src))[7]) && off(content(src)) == old(off(content(src))) + 8
+//@   ensures minor <= 27 && samearray(content(src), old(content(src)))
+//@   ensures off(content(src)) == old(off(content(src))) + strhead(minor) - 1 && len(content(src)) == old(len(content(src))) - (strhead(minor) - 1)
+//@   loop 1:
+//@     invariant 0 <= i && i <= ite(minor == 24, 1, ite(minor == 25, 2, ite(minor == 26, 4, 8))) && minor >= 24 && minor <= 27
+//@     invariant i == 0 ==> val == 0
+//@     invariant i == 1 ==> val == int64(old(content(src))[0])
+//@     invariant i == 2 ==> val == int64(old(content(src))[0]) * 256 + int64(old(content(src))[1])
+//@     invariant i == 3 ==> val == (int64(old(content(src))[0]) * 256 + int64(old(content(src))[1])) * 256 + int64(old(content(src))[2])
+//@     invariant i == 4 ==> val == ((int64(old(content(src))[0]) * 256 + int64(old(content(src))[1])) * 256 + int64(old(content(src))[2])) * 256 + int64(old(content(src))[3])
+//@     invariant i == 5 ==> val == (((int64(old(content(src))[0]) * 256 + int64(old(content(src))[1])) * 256 + int64(old(content(src))[2])) * 256 + int64(old(content(src))[3])) * 256 + int64(old(content(src))[4])
+//@     invariant i == 6 ==> val == ((((int64(old(content(src))[0]) * 256 + int64(old(content(src))[1])) * 256 + int64(old(content(src))[2])) * 256 + int64(old(content(src))[3])) * 256 + int64(old(content(src))[4])) * 256 + int64(old(content(src))[5])
+//@     invariant i == 7 ==> val == (((((int64(old(content(src))[0]) * 256 + int64(old(content(src))[1])) * 256 + int64(old(content(src))[2])) * 256 + int64(old(content(src))[3])) * 256 + int64(old(content(src))[4])) * 256 + int64(old(content(src))[5])) * 256 + int64(old(content(src))[6])
+//@     invariant i == 8 ==> val == ((((((int64(old(content(src))[0]) * 256 + int64(old(content(src))[1])) * 256 + int64(old(content(src))[2])) * 256 + int64(old(content(src))[3])) * 256 + int64(old(content(src))[4])) * 256 + int64(old(content(src))[5])) * 256 + int64(old(content(src))[6])) * 256 + int64(old(content(src))[7])
+
+// a float item: the 4 or 8 bytes after the head, big-endian, are handed to
+// math.Float32frombits / math.Float64frombits unchanged (the inverse of what
+// the encoder writes: C09)
+//@ track math.Float32frombits, math.Float64frombits
+//@ func decodeFloat(src) val, n
+//@   props C08
+//@   arith bv
+//@   flag tags binary_log
+//@   ensures old(len(content(src))) > 0 && (old(content(src))[0] == 250 || old(content(src))[0] == 251)
+//@   ensures old(content(src))[0] == 250 ==> n == 4 && off(content(src)) == old(off(content(src))) + 5 && ncalls(math.Float32frombits) == old(ncalls(math.Float32frombits)) + 1 && callarg(math.Float32frombits, old(ncalls(math.Float32frombits)), 0) == ((uint32(old(content(src))[1]) * 256 + uint32(old(content(src))[2])) * 256 + uint32(old(content(src))[3])) * 256 + uint32(old(content(src))[4])
+//@   ensures old(content(src))[0] == 251 ==> n == 8 && off(content(src)) == old(off(content(src))) + 9 && ncalls(math.Float64frombits) == old(ncalls(math.Float64frombits)) + 1 && callarg(math.Float64frombits, old(ncalls(math.Float64frombits)), 0) == ((((((uint64(old(content(src))[1]) * 256 + uint64(old(content(src))[2])) * 256 + uint64(old(content(src))[3])) * 256 + uint64(old(content(src))[4])) * 256 + uint64(old(content(src))[5])) * 256 + uint64(old(content(src))[6])) * 256 + uint64(old(content(src))[7])) * 256 + uint64(old(content(src))[8])
+//@   loop 1:
+//@     invariant 0 <= i && i <= 4 && old(content(src))[0] == 250
+//@     invariant i == 0 ==> n == 0
+//@     invariant i == 1 ==> n == uint32(old(content(src))[1])
+//@     invariant i == 2 ==> n == uint32(old(content(src))[1]) * 256 + uint32(old(content(src))[2])
+//@     invariant i == 3 ==> n == (uint32(old(content(src))[1]) * 256 + uint32(old(content(src))[2])) * 256 + uint32(old(content(src))[3])
+//@     invariant i == 4 ==> n == ((uint32(old(content(src))[1]) * 256 + uint32(old(content(src))[2])) * 256 + uint32(old(content(src))[3])) * 256 + uint32(old(content(src))[4])
+//@   loop 2:
+//@     invariant 0 <= i && i <= 8 && old(content(src))[0] == 251
+//@     invariant i == 0 ==> n == 0
+//@     invariant i == 1 ==> n == uint64(old(content(src))[1])
+//@     invariant i == 2 ==> n == uint64(old(content(src))[1]) * 256 + uint64(old(content(src))[2])
+//@     invariant i == 3 ==> n == (uint64(old(content(src))[1]) * 256 + uint64(old(content(src))[2])) * 256 + uint64(old(content(src))[3])
+//@     invariant i == 4 ==> n == ((uint64(old(content(src))[1]) * 256 + uint64(old(content(src))[2])) * 256 + uint64(old(content(src))[3])) * 256 + uint64(old(content(src))[4])
+//@     invariant i == 5 ==> n == (((uint64(old(content(src))[1]) * 256 + uint64(old(content(src))[2])) * 256 + uint64(old(content(src))[3])) * 256 + uint64(old(content(src))[4])) * 256 + uint64(old(content(src))[5])
+//@     invariant i == 6 ==> n == ((((uint64(old(content(src))[1]) * 256 + uint64(old(content(src))[2])) * 256 + uint64(old(content(src))[3])) * 256 + uint64(old(content(src))[4])) * 256 + uint64(old(content(src))[5])) * 256 + uint64(old(content(src))[6])
+//@     invariant i == 7 ==> n == (((((uint64(old(content(src))[1]) * 256 + uint64(old(content(src))[2])) * 256 + uint64(old(content(src))[3])) * 256 + uint64(old(content(src))[4])) * 256 + uint64(old(content(src))[5])) * 256 + uint64(old(content(src))[6])) * 256 + uint64(old(content(src))[7])
+//@     invariant i == 8 ==> n == ((((((uint64(old(content(src))[1]) * 256 + uint64(old(content(src))[2])) * 256 + uint64(old(content(src))[3])) * 256 + uint64(old(content(src))[4])) * 256 + uint64(old(content(src))[5])) * 256 + uint64(old(content(src))[6])) * 256 + uint64(old(content(src))[7])) * 256 + uint64(old(content(src))[8])
+
+// string items. The payload is the last (consumed - head) bytes read. A byte
+// string for embedding (noQuotes) is returned verbatim; between quotes, byte
+// strings and text strings are rendered by the same rule: verbatim if every
+// byte is printable ASCII other than quote and backslash, otherwise through
+// decodeStringComplex (one escaper for both kinds).
+//@ track decodeStringComplex
+//@ func decodeString(src, noQuotes) res
+//@   props C08
+//@   arith bv
+//@   flag tags binary_log
+//@   ensures old(len(content(src))) > 0 && old(content(src))[0] >> 5 == 2 && samearray(content(src), old(content(src))) && (off(content(src)) - old(off(content(src)))) >= strhead(old(content(src))[0])
+//@   ensures ncalls(decodeStringComplex) >= old(ncalls(decodeStringComplex)) && ncalls(decodeStringComplex) <= old(ncalls(decodeStringComplex)) + 1
+//@   ensures !noQuotes && ncalls(decodeStringComplex) == old(ncalls(decodeStringComplex)) ==> len(res) == (off(content(src)) - old(off(content(src)))) - strhead(old(content(src))[0]) + 2 && res[0] == '"' && res[len(res)-1] == '"'
+//@   ensures ncalls(decodeStringComplex) == old(ncalls(decodeStringComplex)) + 1 ==> len(callarg(decodeStringComplex, old(ncalls(decodeStringComplex)), 1)) == (off(content(src)) - old(off(content(src)))) - strhead(old(content(src))[0]) && len(res) == len(callres(decodeStringComplex, old(ncalls(decodeStringComplex)), 0)) + 1 && res[len(res)-1] == '"' && prefix(res, callres(decodeStringComplex, old(ncalls(decodeStringComplex)), 0)) && len(callarg(decodeStringComplex, old(ncalls(decodeStringComplex)), 0)) == 1 && callarg(decodeStringComplex, old(ncalls(decodeStringComplex)), 0)[0] == '"'
+//@   ensures noQuotes ==> ncalls(decodeStringComplex) == old(ncalls(decodeStringComplex)) && len(res) == (off(content(src)) - old(off(content(src)))) - strhead(old(content(src))[0])
+//@   loop 1:
+//@     invariant 0 <= i
+
+//@ func decodeUTF8String(src) res
+//@   props C08
+//@   arith bv
+//@   flag tags binary_log
+//@   ensures old(len(content(src))) > 0 && old(content(src))[0] >> 5 == 3 && samearray(content(src), old(content(src))) && (off(content(src)) - old(off(content(src)))) >= strhead(old(content(src))[0])
+//@   ensures ncalls(decodeStringComplex) >= old(ncalls(decodeStringComplex)) && ncalls(decodeStringComplex) <= old(ncalls(decodeStringComplex)) + 1
+//@   ensures ncalls(decodeStringComplex) == old(ncalls(decodeStringComplex)) ==> len(res) == (off(content(src)) - old(off(content(src)))) - strhead(old(content(src))[0]) + 2 && res[0] == '"' && res[len(res)-1] == '"'
+//@   ensures ncalls(decodeStringComplex) == old(ncalls(decodeStringComplex)) + 1 ==> len(callarg(decodeStringComplex, old(ncalls(decodeStringComplex)), 1)) == (off(content(src)) - old(off(content(src)))) - strhead(old(content(src))[0]) && len(res) == len(callres(decodeStringComplex, old(ncalls(decodeStringComplex)), 0)) + 1 && res[len(res)-1] == '"' && prefix(res, callres(decodeStringComplex, old(ncalls(decodeStringComplex)), 0)) && len(callarg(decodeStringComplex, old(ncalls(decodeStringComplex)), 0)) == 1 && callarg(decodeStringComplex, old(ncalls(decodeStringComplex)), 0)[0] == '"'
+//@   loop 1:
+//@     invariant 0 <= i
+
+// an integer item: major type 0 gives the argument, major type 1 gives -1 - argument
+//@ func decodeInteger(src) res
+//@   props C08
+//@   arith bv
+//@   flag tags binary_log
+//@   ensures old(len(content(src))) > 0 && (old(content(src))[0] >> 5 == 0 || old(content(src))[0] >> 5 == 1)
+//@   ensures old(content(src))[0] & 31 <= 23 ==> res == ite(old(content(src))[0] >> 5 == 0, int64(old(content(src))[0] & 31), -1 - int64(old(content(src))[0] & 31)) && off(content(src)) == old(off(content(src))) + 1
+//@   ensures old(content(src))[0] & 31 == 24 ==> res == ite(old(content(src))[0] >> 5 == 0, int64(old(content(src))[1]), -1 - int64(old(content(src))[1])) && off(content(src)) == old(off(content(src))) + 2
+//@   ensures old(content(src))[0] & 31 == 25 ==> res == ite(old(content(src))[0] >> 5 == 0, int64(old(content(src))[1]) * 256 + int64(old(content(src))[2]), -1 - (int64(old(content(src))[1]) * 256 + int64(old(content(src))[2]))) && off(content(src)) == old(off(content(src))) + 3
+//@   ensures old(content(src))[0] & 31 == 27 ==> off(content(src)) == old(off(content(src))) + 9
 
 //@ func decodeStringComplex(dst, s, pos) res
 //@   props C17 C08
 //@   arith bv
 //@   flag tags binary_log
 //@   requires int(pos) >= 0 && int(pos) <= len(s)
+//@   ensures [C08] prefix(res, dst) && len(res) >= len(dst)
 //@   loop 1:
 //@     invariant 0 <= start && start <= i && i <= len(s)
+//@     invariant [C08] prefix(dst, dst0) && len(dst) >= len(dst0)
+
+// one item to JSON: an unsigned integer is printed from the unsigned value of
+// its argument, a negative integer from -1 - argument (strconv's decimal text
+// is trusted to denote the number)
+//@ track strconv.FormatUint, strconv.Itoa
+//@ func cbor2JsonOneObject(src, dst)
+//@   props C08
+//@   arith bv
+//@   flag tags binary_log
+//@   requires src != nil && dst != nil
+//@   ensures old(len(content(src))) > 0
+//@   ensures old(content(src))[0] >> 5 == 0 ==> ncalls(strconv.FormatUint) == old(ncalls(strconv.FormatUint)) + 1 && callarg(strconv.FormatUint, old(ncalls(strconv.FormatUint)), 1) == 10 && ncalls(strconv.Itoa) == old(ncalls(strconv.Itoa))
+//@   ensures old(content(src))[0] >> 5 == 0 && old(content(src))[0] & 31 <= 23 ==> callarg(strconv.FormatUint, old(ncalls(strconv.FormatUint)), 0) == uint64(old(content(src))[0] & 31)
+//@   ensures old(content(src))[0] >> 5 == 0 && old(content(src))[0] & 31 == 24 ==> callarg(strconv.FormatUint, old(ncalls(strconv.FormatUint)), 0) == uint64(old(content(src))[1])
+//@   ensures old(content(src))[0] >> 5 == 0 && old(content(src))[0] & 31 == 25 ==> callarg(strconv.FormatUint, old(ncalls(strconv.FormatUint)), 0) == uint64(old(content(src))[1]) * 256 + uint64(old(content(src))[2])
+//@   ensures old(content(src))[0] >> 5 == 1 ==> ncalls(strconv.Itoa) == old(ncalls(strconv.Itoa)) + 1 && ncalls(strconv.FormatUint) == old(ncalls(strconv.FormatUint))
+//@   ensures old(content(src))[0] >> 5 == 1 && old(content(src))[0] & 31 <= 23 ==> callarg(strconv.Itoa, old(ncalls(strconv.Itoa)), 0) == -1 - int(old(content(src))[0] & 31)
+//@   ensures old(content(src))[0] >> 5 == 1 && old(content(src))[0] & 31 == 24 ==> callarg(strconv.Itoa, old(ncalls(strconv.Itoa)), 0) == -1 - int(old(content(src))[1])
